@@ -932,6 +932,13 @@ def Commandable(
                             errorClass="property", errorCode="invalidArrayIndex"
                         )
 
+                    # the elements are commanded through the present value, a
+                    # priority value written from outside cannot be stored
+                    if isinstance(value, PriorityValue):
+                        raise ExecutionError(
+                            errorClass="property", errorCode="writeAccessDenied"
+                        )
+
                     # update the specific priorty value element
                     priority_value = getattr(self, priorityArray)[arrayIndex]
                     if _debug:
